@@ -10,21 +10,17 @@ Lemma pages_le_max m : m_pages m <= m_max m -> m_max m <= max_wasm_pages -> (m_p
 Proof. intros. apply N.leb_le. lia. Qed.
 
 (* an allocator call that fails: everything the observer needs is untouched *)
-Lemma Inv_fail s m g s' m' e o :
-  Inv s m g -> s_poisoned s' = true -> m_data m' = m_data m -> m_max m' = m_max m ->
+Lemma Inv_fail s m g s' m' g' :
+  Inv s m g -> s_poisoned s' = true -> s_hb s' = s_hb s ->
+  (forall a, In a (g_written g) -> m_data m' a = m_data m a) -> m_max m' = m_max m ->
   m_pages m <= m_pages m' <= m_max m ->
-  (o = OAlloc 0 \/ exists p, o = OFree p /\ (is_live_ptr (g_live g) p = true \/ exempt (s_hb s) (g_written g) p = false)) ->
-  Inv s' m' (track (s_hb s) g o (mkObs (RErr e) (m_pages m'))).
+  g' = mkGhost (g_live g) (g_shadow g) (g_written g) true (g_void g) (m_pages m') ->
+  Inv s' m' g'.
 Proof.
-  intros [i1 iw i2 i3 i4 i5] P D Mx Pg Ho.
-  assert (T : exists gl gs gw gv, track (s_hb s) g o (mkObs (RErr e) (m_pages m')) = mkGhost gl gs gw true gv (m_pages m')
-              /\ gs = g_shadow g /\ gw = g_written g).
-  { destruct Ho as [->|(p & -> & [L|X])]; cbn [track o_res o_pages].
-    - repeat eexists.
-    - rewrite L. repeat eexists.
-    - destruct (is_live_ptr (g_live g) p); [repeat eexists|]. rewrite X. repeat eexists. }
-  destruct T as (gl & gs & gw & gv & -> & -> & ->). constructor; cbn [g_shadow g_written g_dead g_pages]; auto.
-  - intros a v H. rewrite D. now apply i1.
+  intros [i1 iw il1 il2 i2 i3 i4 i5] P Hb D Mx Pg ->. constructor; cbn [g_shadow g_written g_live g_dead g_pages]; auto.
+  - intros a v H. rewrite D; [now apply i1|now apply (iw a v)].
+  - intros a Ha. rewrite Hb. now apply il1.
+  - intros p sz Hp. rewrite Hb. now apply (il2 p sz).
   - rewrite Mx. lia.
   - intros X. congruence.
 Qed.
@@ -204,16 +200,18 @@ Definition alloc_ghost (g : ghost) (p size pages : N) : ghost :=
   mkGhost ((p, size) :: g_live g) (clear_range (g_shadow g) p (p + size)) (g_written g) (g_dead g) (g_void g) pages.
 
 Lemma Inv_alloc_ok s m g s' m' B' lv' p size :
-  Inv s m g -> s_poisoned s = false -> s_poisoned s' = false ->
+  Inv s m g -> s_poisoned s = false -> s_poisoned s' = false -> s_hb s' = s_hb s -> s_hb s + header_size <= p ->
   Struct s' m' (alloc_ghost g p size (m_pages m')) B' lv' ->
   (forall a, In a (g_written g) -> m_data m' a = m_data m a) ->
   m_max m' = m_max m -> m_pages m <= m_pages m' <= m_max m ->
   Inv s' m' (alloc_ghost g p size (m_pages m')).
 Proof.
-  intros [i1 iw i2 i3 i4 i5] P P' S D Mx Pg. constructor; cbn [alloc_ghost g_shadow g_written g_dead g_pages]; auto.
+  intros [i1 iw il1 il2 i2 i3 i4 i5] P P' Hb Lo S D Mx Pg. constructor; cbn [alloc_ghost g_shadow g_written g_live g_dead g_pages]; auto.
   - intros a v. cbn [alloc_ghost g_shadow]. rewrite lookup_clear. destruct ((p <=? a) && (a <? p + size)); [discriminate|].
     intros H. rewrite D; [now apply i1|]. now apply (iw a v).
   - intros a v. rewrite lookup_clear. destruct ((p <=? a) && (a <? p + size)); [discriminate|]. apply iw.
+  - intros a Ha. rewrite Hb. now apply il1.
+  - intros q sz [[= <- <-]|Hq]; rewrite Hb; [exact Lo|now apply (il2 q sz)].
   - congruence.
   - rewrite Mx. lia.
   - intros _. exists B', lv'. exact S.
@@ -247,13 +245,12 @@ Theorem alloc_sound s m g size :
   step_ok (s_hb s) g (OAlloc size) ob = true /\ Inv s' m' (track (s_hb s) g (OAlloc size) ob) /\ s_hb s' = s_hb s.
 Proof.
   intros HI NV r s' m' A. cbn zeta.
-  pose proof HI as [i1 iw i2 i3 i4 i5]. destruct i3 as (Pg1 & Pg2).
+  pose proof HI as [i1 iw il1 il2 i2 i3 i4 i5]. destruct i3 as (Pg1 & Pg2).
   assert (FAIL : forall e s1, s_poisoned s1 = true -> s_hb s1 = s_hb s -> (r, s', m') = (RErr e, s1, m) ->
             step_ok (s_hb s) g (OAlloc size) (mkObs r (m_pages m')) = true /\
             Inv s' m' (track (s_hb s) g (OAlloc size) (mkObs r (m_pages m'))) /\ s_hb s' = s_hb s).
   { intros e s1 P1 Hb [= -> -> ->]. split; [apply step_ok_err; [lia|exact I]|]. split; [|exact Hb].
-    assert (X : track (s_hb s) g (OAlloc size) (mkObs (RErr e) (m_pages m)) = track (s_hb s) g (OAlloc 0) (mkObs (RErr e) (m_pages m))) by reflexivity.
-    rewrite X. apply (Inv_fail s m g s1 m e (OAlloc 0)); auto; try lia. }
+    apply (Inv_fail s m g s1 m); auto; try lia. }
   unfold alloc in A.
   destruct (s_poisoned s) eqn:PO.
   { symmetry in A. apply (FAIL EPoisoned s); auto. }
@@ -300,7 +297,7 @@ Proof.
       assert (NE : c <> (hp, o)) by (intros ->; cbn [fst] in Hl; congruence).
       destruct (tiles_disjoint _ _ _ _ _ (st_tiles _ _ _ _ _ S) Hc Hb) as [X|[X|X]]; [contradiction| |];
         unfold bsize, header_size in *; cbn [fst snd] in *; lia.
-    + apply (Inv_alloc_ok s m g s2 m2 B (lv_set lv hp (Some size)) (hp + 8) size HI PO eq_refl S2).
+    + apply (Inv_alloc_ok s m g s2 m2 B (lv_set lv hp (Some size)) (hp + 8) size HI PO eq_refl eq_refl ltac:(unfold header_size; lia) S2).
       * intros a Ha. cbn [m2 m_data]. apply wr8_out.
         destruct (st_wr _ _ _ _ _ S a Ha) as (c & Hc & X).
         destruct (payload_not_header _ _ _ _ (hp, o) _ (st_tiles _ _ _ _ _ S) Hc Hb X); cbn [fst] in *; lia.
@@ -340,7 +337,7 @@ Proof.
       cbn [andb]. apply (forallb_live_disjoint s m g B lv); [exact S|].
       intros c sz Hc Hl. right. destruct (tiles_in _ _ _ _ (st_tiles _ _ _ _ _ S) Hc) as (_ & X & _).
       fold hp in X. unfold header_size. lia.
-    + apply (Inv_alloc_ok s m g s2 m2 (B ++ [(hp, o)]) (lv_set lv hp (Some size)) (hp + 8) size HI PO eq_refl S2).
+    + apply (Inv_alloc_ok s m g s2 m2 (B ++ [(hp, o)]) (lv_set lv hp (Some size)) (hp + 8) size HI PO eq_refl eq_refl ltac:(unfold header_size; lia) S2).
       * intros a Ha. cbn [m2 m_data]. rewrite D1. apply wr8_out.
         destruct (st_wr _ _ _ _ _ S a Ha) as (c & Hc & X).
         destruct (tiles_in _ _ _ _ (st_tiles _ _ _ _ _ S) Hc) as (_ & Y & _). fold hp in Y. lia.
